@@ -140,4 +140,56 @@ class C01(Prop):
         return v
 
 
+    def extra(self, ctx):
+        """Enumerated part: every temporal/event operator x every interval [a,b] with 0<=a<=b<=4 (and unbounded)
+        x trace lengths 1..6 (quick: depth 1; thorough: also every outer x inner pair of temporal operators over a
+        reduced interval set), operands a bare variable and a predicate, adversarial step/spike traces."""
+        rng = ctx.rng
+        x, y = lang.V('x'), lang.V('y')
+        px, py = lang.N('geq', x, lang.C(1.0)), lang.N('leq', y, lang.C(0.5))
+        un = ['once', 'historically', 'eventually', 'always']
+        bi = ['since', 'until', 'unless']
+        plain = ['prev', 's_prev', 'next', 's_next', 'rise', 'fall']
+        ivls = [None] + [(a, b) for a in range(5) for b in range(a, 5)]
+        forms = []
+        for o in un:
+            for iv in ivls:
+                forms += [lang.N(o, x, ivl=iv), lang.N(o, px, ivl=iv)]
+        for o in bi:
+            for iv in ivls:
+                if o == 'unless' and iv is None:
+                    continue
+                forms += [lang.N(o, px, py, ivl=iv), lang.N(o, x, y, ivl=iv)]
+        for o in plain:
+            forms += [lang.N(o, x), lang.N(o, px)]
+        if ctx.tier == 'thorough':
+            red = [None, (0, 0), (1, 1), (0, 2), (1, 3)]
+            inner = []
+            for o in un:
+                inner += [lang.N(o, px, ivl=iv) for iv in red]
+            for o in bi:
+                inner += [lang.N(o, px, py, ivl=iv) for iv in red if not (o == 'unless' and iv is None)]
+            inner += [lang.N(o, px) for o in plain]
+            for o in un:
+                for iv in red:
+                    forms += [lang.N(o, g, ivl=iv) for g in inner]
+            for o in bi:
+                for iv in red:
+                    if o == 'unless' and iv is None:
+                        continue
+                    forms += [lang.N(o, g, py, ivl=iv) for g in inner] + [lang.N(o, py, g, ivl=iv) for g in inner]
+            forms += [lang.N(o, g) for o in plain for g in inner]
+        forms = [f for i, f in enumerate(forms) if i % ctx.nshards == ctx.shard]
+        done = 0
+        for f in forms:
+            if ctx.out_of_time():
+                ctx.notes.append('operator x interval enumeration stopped by the wall-clock budget after %d formulas' % done)
+                break
+            for n in (1, 2, 3, 4, 5, 6):
+                names = lang.variables(f)
+                self.check(ctx, {'formula': f, 'data': lang.gen_trace(rng, names, n), 'kind': 'dt'})
+            done += 1
+        ctx.count('enumerated-operator-interval-formulas', done)
+
+
 PROP = C01()
